@@ -471,6 +471,10 @@ Definition stmt_C10_total_map : Prop :=
      (exists x, tb_index T c t i = TOk x) /\
      (forall y, exists t', tb_set T c t i y = TOk t' /\ tb_index T c t' i = TOk y /\ well_sized c t')) /\
   (vp_disabled p = true -> tb_index T c t i = TPanic /\ forall y, tb_set T c t i y = TPanic).
+(* the table's keys are exactly what EnumIter yields, in the same order, and there are COUNT of them *)
+Definition stmt_C10_keys_are_iter : Prop :=
+  forall it c ic n, gen_table it = Ok c -> gen_iter it = Ok ic -> gen_count it = Ok n ->
+  map fst (tb_slots c) = map ct_variant (ic_table ic) /\ length (tb_slots c) = n.
 
 (* ======================= C13 / C14 / C15 / C09 ======================= *)
 Definition stmt_C13_methods : Prop :=
